@@ -224,6 +224,22 @@ def run(ctx):
                        {'signature': sig, 'call': call, 'observed': oc,
                         'expected': 'C04/Wrap.v bind (vs undecorated call) and checked (vs logged isinstance checks)'},
                        'binding or checked values differ between the model and CPython/beartype')
+    # @beartype over functools.wraps wrappers (transparent, with an option of their own, with a leading parameter of their own)
+    try:
+        wrows = run_impl('c04_wrappers.py', {}, timeout=300)
+    except Exception as e:  # noqa
+        wrows = [{'kind': 'crash', 'error': str(e)[-600:]}]
+    ctx.evaluations += len(wrows)
+    ctx.extra['wrapper_rows'] = len(wrows)
+    for r in wrows:
+        wrong = (r['kind'] in ('crash', 'decoration') or
+                 (r['kind'] == 'conforming' and r['undecorated'] != r['decorated']) or
+                 (r['kind'] == 'violating' and (r['decorated'][0][0] != 'param_violation' or r['decorated'][1])))
+        if wrong and failures <= 12:
+            failures += 1
+            ctx.report({'clause': 'wrapper_of_wrapper', 'wrapper': r.get('wrapper'), 'kind': r['kind']}, r,
+                       'a decorated functools.wraps wrapper does not behave like the undecorated one on a conforming call '
+                       '(or a transparent wrapper leaves the wrapped callable unchecked)')
     if proof_err is not None and not failures:
         ctx.broken(f'{PROP} ({proof_err.what})', proof_err.log)
 
@@ -236,3 +252,10 @@ def replay(ctx, path):
     if 'signature' in r:
         o = run_impl('c04_impl.py', {'cases': [{'sig': r['signature'], 'calls': [r['call']]}]})
         print(json.dumps(o[0]))
+    elif 'wrapper' in r:
+        for row in run_impl('c04_wrappers.py', {}, timeout=300):
+            if all(row.get(k) == r.get(k) for k in ('wrapper', 'inner', 'kind', 'args', 'kwargs')):
+                print(json.dumps(row))
+                if (row['kind'] == 'conforming' and row['undecorated'] != row['decorated']) or \
+                        (row['kind'] == 'violating' and (row['decorated'][0][0] != 'param_violation' or row['decorated'][1])):
+                    ctx.report(body.get('shape') or {'clause': 'wrapper_of_wrapper'}, row, 'the wrapper case still fails')
